@@ -139,6 +139,7 @@ impl Pred {
     fn tag(&self) -> &'static str {
         match self {
             Pred::All => "all",
+            Pred::IdEq(k) if *k >= 1000 => "by-key-miss",
             Pred::IdEq(_) => "by-key",
             Pred::ALe(_) => "range",
             Pred::Never => "no-match",
@@ -158,6 +159,10 @@ fn lit(v: V) -> String {
 }
 
 fn gen_pred(rng: &mut Rng, t: &[Row]) -> Pred {
+    if rng.chance(1, 8) {
+        // a key that matches no row (the primary-key fast path with a miss)
+        return Pred::IdEq(1000 + rng.range(0, 50));
+    }
     match rng.below(8) {
         0 | 1 => Pred::All,
         2..=4 if !t.is_empty() => Pred::IdEq(rng.pick(t)[0].unwrap()),
